@@ -1022,3 +1022,36 @@ def check_C16(tier, seed):
                     "set of <= 2 entries) and every bounded client/ACL management sequence with restarts; each is sent through "
                     "the real router + JWT middleware + authorizer, or executed on the real ServiceCore. evaluations = "
                     "compared decisions; distinct_nontrivial = distinct cases")
+
+
+# ----------------------------------------------------------------------------
+# C15
+
+def check_C15(tier, seed):
+    v = Verdict("C15", tier, seed)
+    v.wd = verif.workdir("C15")
+    sd = verif.spec_copy(v.wd)
+    binary = verif.build_harness(v.wd)
+    name = "C15_docs"
+    with open(os.path.join(sd, name + ".tla"), "w") as fh:
+        fh.write("---- MODULE %s ----\nEXTENDS Parser\n====\n" % name)
+    with open(os.path.join(sd, name + ".cfg"), "w") as fh:
+        fh.write("SPECIFICATION Spec\nINVARIANT OneBadSlotInvalidates\nCONSTRAINT EmitDoc\nCHECK_DEADLOCK FALSE\n")
+    out = os.path.join(v.wd, name + ".out")
+    st = verif.run_tlc(sd, name, out, workers=4)
+    v.add_tlc(st)
+    tot, results = verif.replay(binary, v.wd, out, label=name, test="TestParser")
+
+    def classify(r, d):
+        return None
+    v.add_replay(tot, results, classify=classify, label=name)
+    os.remove(out)
+    v.assumptions = ["documents are built from slot shapes (valid forms and single-slot type mutations) plus element-level and "
+                     "byte-level truncations; arbitrary byte strings beyond that are not generated",
+                     "all documents are smaller than the handler's flush batch (10), so 'nothing stored' is exact",
+                     "encoding/json's tokenizer is trusted"]
+    return v.finish(rule="documents = every initial state TLC enumerates from spec/Parser.tla (context shape x entity slot "
+                    "shapes x truncation); each is rendered to bytes and (1) parsed by the real EntityStreamParser under "
+                    "recover, (2) POSTed through the real handler into a fresh dataset, (3) read back through GET entities / "
+                    "changes and re-parsed, (4) cut at ~40 byte positions. evaluations = compared answers; "
+                    "distinct_nontrivial = distinct documents")
